@@ -499,6 +499,42 @@ pub fn setup_s_with_sk(i: &SenderIn, sk_e: &[u8]) -> Option<(Vec<u8>, KeySched)>
     Some((enc, key_schedule(i.suite, i.mode, &ss, i.info, psk, psk_id)))
 }
 
+/// A sender that does NOT hold skS but produces an Auth / AuthPsk transcript anyway, from public
+/// values and its own ephemeral key only (C08). `term` selects what stands in for DH(skS, pkR):
+/// 0 nothing, 1 Ndh zero bytes (the value DH(skR, pkS) takes when pkS is of small order), 2 nothing
+/// and pkS left out of kem_context (a Base encapsulation under an Auth mode byte), 3 DH(skE, pkS)
+/// (computable without any secret of the claimed sender), 4 the ephemeral DH repeated.
+/// No receiver following RFC 9180 derives the same key schedule for any expected pkS.
+pub fn forged_auth_setup_s(i: &SenderIn, sk_e: &[u8], term: u8) -> Option<(Vec<u8>, KeySched)> {
+    let kem = i.suite.kem;
+    let enc = pk_of(kem, sk_e)?;
+    let eph = dh(kem, sk_e, i.pk_r)?;
+    let mut dh_ = eph.clone();
+    let mut kem_context = enc.clone();
+    kem_context.extend_from_slice(i.pk_r);
+    match term {
+        0 => kem_context.extend_from_slice(i.pk_s),
+        1 => {
+            dh_.extend_from_slice(&vec![0u8; eph.len()]);
+            kem_context.extend_from_slice(i.pk_s);
+        }
+        2 => {}
+        3 => {
+            // a small-order / invalid pkS has no such value: fall back to zeros, what the ladder returns
+            let t = dh(kem, sk_e, i.pk_s).unwrap_or_else(|| vec![0u8; eph.len()]);
+            dh_.extend_from_slice(&t);
+            kem_context.extend_from_slice(i.pk_s);
+        }
+        _ => {
+            dh_.extend_from_slice(&eph);
+            kem_context.extend_from_slice(i.pk_s);
+        }
+    }
+    let ss = extract_and_expand(kem, &dh_, &kem_context);
+    let (psk, psk_id): (&[u8], &[u8]) = if i.mode & 1 != 0 { (i.psk, i.psk_id) } else { (b"", b"") };
+    Some((enc, key_schedule(i.suite, i.mode, &ss, i.info, psk, psk_id)))
+}
+
 /// SetupBaseS / SetupPSKS / SetupAuthS / SetupAuthPSKS
 pub fn setup_s(i: &SenderIn) -> Option<(Vec<u8>, KeySched)> {
     let (ss, enc) = if i.mode & 2 != 0 {
